@@ -1,8 +1,102 @@
-// C14 harness (stub: replaced by the real harness).
-use crate::vx::report::Report;
+// C14 harness: routing policy evaluates as specified and can never crash on a route.
+//
+// Part (a): bounded-exhaustive enumeration of policy programs x routes, evaluated by the
+//           real rustybgp_table policy engine (built only through the public PolicyTable
+//           API, the way daemon/src/event/grpc.rs does) and by a reference interpreter
+//           written from the property statement (linear scans, no shared code).
+// Part (b): vx::bfs over CRUD histories (sets / statements / policies / assignments).
+//
+// The code is split over several files (`c14_*.rs`, included below) only to keep the
+// individual files readable; they form one module.
 
-pub fn run(_replay: Option<&str>) -> Report {
+use crate::vx::bfs::{self, BfsCfg};
+use crate::vx::enumr;
+use crate::vx::report::{self, Report, Violation};
+use rustybgp_packet::bgp::{Ipv4Net, Ipv6Net, Nexthop};
+use rustybgp_packet::{Attribute, Family, IpNet, Nlri};
+use rustybgp_table::{
+    Actions, CommunityAction, CommunityActionType, Comparison, Condition, ConditionConfig,
+    DefinedSetConfig, DefinedSetRef, Disposition, LocalPrefAction, MatchOption, MedAction,
+    MedActionType, NexthopAction, OriginAction, PeerRole, PolicyAssignment, PolicyDirection,
+    PolicyTable, PrefixConfig, Roa, RouteType, RpkiTable, RpkiValidationState, Source, TableError,
+};
+use std::collections::{BTreeMap, BTreeSet, HashSet};
+use std::net::{IpAddr, Ipv4Addr, Ipv6Addr};
+use std::sync::{Arc, Mutex};
+
+include!("c14_core.rs");
+include!("c14_sets.rs");
+include!("c14_chain.rs");
+include!("c14_crud.rs");
+
+pub fn run(replay: Option<&str>) -> Report {
     let mut rep = Report::new("C14", "hx-c14");
-    rep.machinery_error = Some("harness not built yet".into());
+    if let Some(case) = replay {
+        return run_replay(rep, case);
+    }
+    let thorough = rep.thorough();
+    rep.rule = "part (a): every (policy program, route) pair of the stated small universes is built through the public PolicyTable API and evaluated by apply_import/apply_export, then compared with a reference interpreter (disposition + attribute vector + next hop) and checked for panics; non-trivial/distinct = distinct per-program behaviour vectors (outcome of one program over all routes of its universe) observed from the subject. part (b): explicit-state BFS over CRUD histories; distinct = canonical table states".into();
+
+    let mut distinct: u64 = 0;
+    let subs: Vec<(&str, fn(&mut Report, bool) -> u64)> = vec![
+        ("a1v4", |r, t| a1_run(r, t, false)),
+        ("a1v6", |r, t| a1_run(r, t, true)),
+        ("a2", a2_run),
+        ("a3", a3_run),
+        ("a4", a4_run),
+        ("a5", a5_run),
+        ("a6", a6_run),
+    ];
+    for (name, f) in subs {
+        let mut sub = Report::new("C14", "hx-c14");
+        let t0 = std::time::Instant::now();
+        let d = f(&mut sub, thorough);
+        distinct += d;
+        sub.notes.push(format!(
+            "{name}: evaluations={} distinct_behaviours={} violations(sigs)={} wall={:.1}s",
+            sub.evaluations,
+            d,
+            sub.violations.len(),
+            t0.elapsed().as_secs_f64()
+        ));
+        sub.distinct_nontrivial = 0;
+        rep.merge(sub);
+    }
+    rep.distinct_nontrivial += distinct;
+    crud_run(&mut rep, thorough);
+    rep
+}
+
+fn run_replay(mut rep: Report, case: &str) -> Report {
+    let name = case.split('#').next().unwrap_or("");
+    let idx: Vec<u64> = case
+        .split('#')
+        .nth(1)
+        .unwrap_or("")
+        .split(',')
+        .filter_map(|s| s.trim().parse().ok())
+        .collect();
+    eprintln!("replay {case}");
+    let vs: Vec<(String, String, String)> = match name {
+        "a1v4" => a1_replay(&idx, false),
+        "a1v6" => a1_replay(&idx, true),
+        "a2" => a2_replay(&idx),
+        "a3" => a3_replay(&idx),
+        "a4" => a4_replay(&idx),
+        "a5" => a5_replay(&idx),
+        "a6" => a6_replay(&idx),
+        n if n.starts_with("crud") => {
+            return crud_replay(rep, case);
+        }
+        _ => {
+            rep.machinery_error = Some(format!("unknown replay case {name:?}"));
+            return rep;
+        }
+    };
+    rep.evaluations = 1;
+    for (sig, what, case) in vs {
+        eprintln!("  VIOLATION {sig}: {what}");
+        rep.violation(Violation { sig, what, case });
+    }
     rep
 }
